@@ -11,8 +11,11 @@ ID = "C20"
 PROPS_FILE = "Props/C20.v"
 COQ_TARGETS = ["Harness/H20.vo"]
 ALLOWED_AXIOMS = []
-# source translation (fail-closed): coq/Gen/Core.v is regenerated from the source text of C.REPO on every run; lsolve is
-# translated (translate:lsolve) but not yet tied to Model/LSolve.v by a Tie file (harness/translate/py2coq_core.py)
+# second tie (translator): coq/Gen/Core.v is regenerated from the source text of C.REPO on every run and
+# coq/Tie/T20.v proves generated lsolve = Model/LSolve.v on well-formed systems (harness/translate/py2coq_core.py)
+EXTRA_PROPS = ["Tie/T20.v"]
+
+
 def prebuild(ctx):
     import os
     import sys
